@@ -3,6 +3,7 @@
 package scen
 
 import (
+	"sort"
 	"fmt"
 	"strings"
 
@@ -40,6 +41,9 @@ type c18W struct {
 	RecvErrAt int        `json:"recv_error_at"` // -1: the client stream ends normally
 	AddFails  bool       `json:"add_fails,omitempty"` // streambatch: the driver's add functions report an error (disk full)
 	LongRun   bool       `json:"long_run,omitempty"`
+	// SetErrAt > 0: the (SetErrAt-1)-th Set issued inside the driver's bulk
+	// write fails once with an I/O error (in the middle of some element)
+	SetErrAt int `json:"bulk_set_error_at,omitempty"`
 }
 
 func init() {
@@ -152,6 +156,9 @@ func genC18(r *Rng, tier string, mode string) *c18W {
 			}
 		}
 	}
+	if mode == "server-bulk" && r.Chance(10) && n > 0 {
+		w.SetErrAt = 1 + r.Intn(1+5*n)
+	}
 	if mode == "server-bulk" && r.Chance(8) && n > 0 {
 		w.RecvErrAt = r.Intn(n)
 	}
@@ -177,6 +184,11 @@ func shrinkC18(w *c18W) []interface{} {
 	if w.RecvErrAt >= 0 {
 		n := cp()
 		n.RecvErrAt = -1
+		out = append(out, n)
+	}
+	if w.SetErrAt > 1 {
+		n := cp()
+		n.SetErrAt--
 		out = append(out, n)
 	}
 	if w.Run.Policy != 0 || w.Run.CapDiv != 1 {
@@ -267,6 +279,7 @@ func execC18(w *c18W, x *Exec) *Outcome {
 	var result *gripql.BulkEditResult
 	var handlerErr error
 	var got *obs
+	var theDisk *simkv.Disk
 	u := universe{Graphs: []string{"g1", "g2", "missing"}, VIDs: gen.HVIDs, EIDs: gen.HEIDs, VLabels: gen.VLabels, ELabels: gen.ELabels}
 	res := x.Bubble(cfg, func(s *simrt.Sim) func() bool {
 		var srv *simServer
@@ -278,6 +291,10 @@ func execC18(w *c18W, x *Exec) *Outcome {
 					srv.DB.AddGraph(g)
 				}
 				srv.Srv.VerifRefreshGraphMap()
+				if w.SetErrAt > 0 {
+					srv.Disk.BulkSetErrorAt = w.SetErrAt - 1
+				}
+				theDisk = srv.Disk
 			}
 		})
 		if err != nil {
@@ -317,6 +334,44 @@ func execC18(w *c18W, x *Exec) *Outcome {
 	}
 	if handlerErr != nil || result == nil || got == nil {
 		o.Violation = &Violation{Signature: "C18/handler-error", Detail: fmt.Sprintf("BulkAdd returned error %v (result %v)", handlerErr, result)}
+		return o
+	}
+	if w.SetErrAt > 0 && theDisk != nil && theDisk.Faults.Fired["bulk_set_error"] > 0 {
+		// a storage error in the middle of an element: the load of that graph may
+		// fail (its elements may all be missing) but nothing half-written may be
+		// left, and whatever is stored must be an element that was streamed
+		o.Count("fault:set_error_inside_bulk_write", 1)
+		if msg := rawConsistency(theDisk); msg != "" {
+			o.Violation = &Violation{Class: "C18/half-written-element", Signature: "C18/half-written-element/after-set-error-inside-bulk-write", Detail: fmt.Sprintf("Set number %d inside the bulk write failed: %s", w.SetErrAt-1, msg)}
+			return o
+		}
+		if sawEdgeWithoutID {
+			return o // generated edge ids: contents are not comparable
+		}
+		sent := map[string][]string{}
+		for _, el := range w.Stream {
+			if el.V != nil {
+				sent[el.G] = append(sent[el.G], mvCanon(el.V))
+			} else if el.E != nil {
+				sent[el.G] = append(sent[el.G], meCanon(el.E, true))
+			}
+		}
+		for _, k := range got.keys {
+			if obsKind(k) != "vertex-listing" && obsKind(k) != "edge-listing" {
+				continue
+			}
+			g := k[:strings.Index(k, "/")]
+			items := append([]string{}, sent[g]...)
+			sort.Slice(items, func(i, j int) bool { return len(items[i]) > len(items[j]) })
+			rest := strings.Trim(got.vals[k], "[]")
+			for _, it := range items {
+				rest = strings.ReplaceAll(rest, it, "")
+			}
+			if strings.TrimSpace(rest) != "" {
+				o.Violation = &Violation{Class: "C18/stored-element-not-streamed", Signature: "C18/stored-element-not-streamed/after-set-error-inside-bulk-write", Detail: fmt.Sprintf("%s holds something that no element of the stream is: %s (listing %s)", k, strings.TrimSpace(rest), got.vals[k])}
+				return o
+			}
+		}
 		return o
 	}
 	want := observeModel(ref, u)
